@@ -39,7 +39,8 @@ fn fixture(mult: u128) -> Option<Fx> {
     // a faucet is exempt from the balance rule, so it can fund coins and pay its own fee at any multiplier
     let mut f = tx_t(TxKind::Faucet, vec![], vec![out_t(1 << 118, Denom::Mel), out_t((1 << 118) + 1, Denom::Mel), out_t((1 << 118) + 2, Denom::Mel)], 0, b"c05".to_vec());
     for _ in 0..4 {
-        f.fee = melstructs::CoinValue(ref_min_fee(&f, mult).min(1 << 120));
+        // comfortably above the minimum, so that the fixture does not depend on the threshold comparison under test
+        f.fee = melstructs::CoinValue(ref_min_fee(&f, mult).saturating_add(if mult > 0 { 1000 } else { 0 }).min(1 << 120));
     }
     u.apply_tx(&f).ok()?;
     let s = u.seal(None);
@@ -115,6 +116,29 @@ fn one_case(run: &Run, fx: &Fx, n_in: usize, n_out: usize, extra: &(&'static str
             run.outcome(if delta == 0 { "accepted-at-threshold" } else { "accepted-above-threshold" });
             let fp1 = st.verif_fee_pool().0;
             let tips1 = st.verif_tips().0;
+            // the same body with a larger signature payload weighs more: paying only the smaller transaction's minimum is not enough
+            // (the two transactions share their hash_nosigs, so anything memoised under that hash must not include the weight)
+            if delta == 0 && fx.mult > 0 {
+                let mut padded = tx.clone();
+                padded.sigs = vec![vec![0x5au8; 3000].into()];
+                let pmin = ref_min_fee(&padded, fx.mult);
+                if pmin > padded.fee.0 {
+                    run.transition();
+                    let mut st2 = fx.state.clone();
+                    let r = guard(|| st2.apply_tx(&padded));
+                    run.validated();
+                    if let Ok(Ok(())) = r {
+                        run.violation(
+                            "C05",
+                            format!("underpaying-accepted/{}/same-body-larger-sigs", mclass),
+                            format!("multiplier {} {}: after the unpadded transaction was validated, the same body with 3000 bytes of signatures paying {} (< its minimum {}) was accepted", fx.mult, shape, padded.fee.0, pmin),
+                            json!({"fee_multiplier": fx.mult.to_string(), "shape": shape, "first": tx_json(&tx), "then": tx_json(&padded)}),
+                        );
+                    } else {
+                        run.outcome("padded-sigs-underpaying:rejected");
+                    }
+                }
+            }
             if fp1 != fp0.saturating_add(min) || tips1 != tips0.saturating_add(tx.fee.0 - min) {
                 run.violation(
                     "C05",
@@ -125,6 +149,35 @@ fn one_case(run: &Run, fx: &Fx, n_in: usize, n_out: usize, extra: &(&'static str
             }
         }
     }
+}
+
+/// Covenant shapes whose weight depends on how loop bodies nest and overrun: [loop a n1; loop b n2; noop; hash 65535; pushi] for all n1, n2.
+fn loop_shape_covenants() -> Vec<(String, Bytes)> {
+    let mut v = vec![];
+    for n1 in 0u16..=5 {
+        for n2 in 0u16..=5 {
+            let ops = vec![OpCode::Loop(3, n1), OpCode::Loop(5, n2), OpCode::Noop, OpCode::Hash(65535), OpCode::PushI(1u8.into())];
+            v.push((format!("loop 3 {}; loop 5 {}; noop; hash 65535; pushi", n1, n2), Covenant::from_ops(&ops).to_bytes()));
+        }
+    }
+    for n in [1u16, 2, 3, 4] {
+        let ops = vec![OpCode::Loop(2, n), OpCode::Loop(2, n), OpCode::Loop(2, n), OpCode::Add, OpCode::Mul, OpCode::Hash(100)];
+        v.push((format!("3 x loop 2 {}; add; mul; hash 100", n), Covenant::from_ops(&ops).to_bytes()));
+    }
+    v
+}
+
+fn loop_shape_cases(run: &Run, fx: &Fx) {
+    let shapes = loop_shape_covenants();
+    run.states_add(shapes.len() as u64);
+    shapes.par_iter().for_each(|(name, cov)| {
+        for delta in [-1i64, 0, 1] {
+            // `one_case` takes a static label; the shape is carried in the replay through the transaction itself
+            let extra: (&'static str, Option<Bytes>) = ("loop-shape", Some(cov.clone()));
+            let _ = name;
+            one_case(run, fx, 1, 1, &extra, 0, delta);
+        }
+    });
 }
 
 pub fn run(run: &Run) {
@@ -164,6 +217,14 @@ pub fn run(run: &Run) {
             one_case(run, fx, *n_in, *n_out, &covs[*ci], *dl, *d);
         }
     });
+    for (i, m) in mults.iter().enumerate() {
+        if *m == 65536 || (thorough && *m == 1_000_000) {
+            if let Some(fx) = &fxs[i] {
+                loop_shape_cases(run, fx);
+            }
+        }
+    }
+    run.set("loop_shape_covenants", json!(loop_shape_covenants().len()));
     run.set("grid", json!({"multipliers": mults.iter().map(|m| m.to_string()).collect::<Vec<_>>(), "inputs": [1, 2, 3], "outputs": [0, 1, 2, 3, 255], "extra_covenants": covs.iter().map(|c| c.0).collect::<Vec<_>>(), "data_len": [0, 1, 100], "fee_minus_min": deltas, "cases": cases.len()}));
     // histories: fee pool / tips / proposer reward over multi-block histories (engine oracles)
     let mut cfg = AlphaCfg::base();
